@@ -276,6 +276,10 @@ def run_traffic(sc):
                 tag = 'T%d-%d' % (ti, j)
                 node = new_ele('probe')
                 sub_ele(node, 'tag').text = tag
+                if sc.get('pasted') and (ti + j) % 2 == 0:
+                    # what users paste from RFC 6241 / vendor manuals into rpc(): a complete <rpc> with the documentation's message-id
+                    from ncclient.xml_ import to_ele
+                    node = to_ele('<rpc xmlns="%s" message-id="101"><probe><tag>%s</tag></probe></rpc>' % (FS.BASE_NS, tag))
                 t0 = time.time()
                 try:
                     if sc.get('reseed') is not None:
